@@ -113,6 +113,27 @@ TABLE = {
         "and alias column edges are probed explicitly); target masses are the library's own mass() on reference cells.",
         "6/C02",
     ),
+    "C03": (
+        "model_checking",
+        "exact recovery of the coupling kernel of every fine state (uniform seam, partition recovery) + complete telescoping sums against an independently built coarse chain; scripted path assembly",
+        "For every (model, grid, method, level) of the lattice the kernel u -> coarse state of every fine state is recovered "
+        "exactly and sum_x rate(x) P(x->y) is compared with the rate of every coarse state of a chain built independently on "
+        "the un-refined grid; adjacency, copied even increments, coarse drift / diffusion and shared Brownian increments are "
+        "checked on the same objects, and the assembled coupled pair against the kernel images for scripted variates.",
+        "Rates are the library's mass() on reference cells (C01); levels <= 2 (3); the SDE coupling is checked for its drifts "
+        "only (its recursion is C16).",
+        "6/C03",
+    ),
+    "C12": (
+        "exploration",
+        "exhaustive enumeration of all interval-type patterns (15 intervals per coordinate, d = 2, 3), all index subsets and all alphabet split points, against two independent reference implementations and density quadrature",
+        "Every rectangle of the lattice not containing the origin: non-negativity, additivity under every split (including "
+        "zero), fast path = general formula = reference from the definition, whole-line sums = marginal mass, sub-family "
+        "masses = I-margins, inverse tail integrals, cache/order/truncation histories bit for bit, Clayton masses against "
+        "nested quadrature of the joint density.",
+        "Lattice end points only; reference shares the copula function and the marginal integrals (checked in C11 / C09).",
+        "6/C12",
+    ),
 }
 
 READY = []  # filled from checks/ below; a module must define PID
